@@ -1,5 +1,6 @@
 import AriesVerif.C11.Drv
 import AriesVerif.C15.Drv
+import AriesVerif.C19.Drv
 /-! Line protocol: stdin lines `<caseid>\t<input>`; stdout lines `<caseid>\t<model output>\t<spec output>`.
     The property is chosen by `argv[0]` (e.g. `driver C11`). -/
 
@@ -7,6 +8,7 @@ def dispatch (prop : String) (input : String) : String × String :=
   match prop with
   | "C11" => (C11.Drv.handle input, C11.Drv.handleSpec input)
   | "C15" => (C15.Drv.handle input, C15.Drv.handleSpec input)
+  | "C19" => (C19.Drv.handle input, C19.Drv.handleSpec input)
   | _ => ("unknown-property", "unknown-property")
 
 partial def loop (prop : String) (hin hout : IO.FS.Stream) : IO Unit := do
